@@ -407,6 +407,35 @@ def guards_of(root, target):
     return out
 
 
+def guard_text(g):
+    """one-line description of a guards_of entry"""
+    if g[0] == "if":
+        return "%s(%s)" % ("" if g[2] else "not ", render(g[1]))
+    if g[0] == "match":
+        return "%s is %s" % (render(g[1]), render_pat(g[2]))
+    return g[0]
+
+
+def presence_guard(g):
+    """if the guard only tests that an optional place is present (`if let Some(x) = &a.b`, `match a.b { Some(x) => ..`),
+    return the rendered place (adapters like as_ref/as_deref/& peeled, but no filtering method); else None"""
+    pat = init = None
+    if g[0] == "if" and g[2] and g[1]["k"] == "LetE":
+        pat, init = g[1]["pat"], g[1]["init"]
+    elif g[0] == "match":
+        pat, init = g[2], g[1]
+    if pat is None:
+        return None
+    txt = render_pat(pat).lstrip("&")
+    if not (txt.startswith("Option::Some(") or txt.startswith("Result::Ok(")):
+        return None
+    base = peel(init)
+    r = render(base)
+    if base["k"] in ("Field", "Path") or (base["k"] == "MCall" and base["m"] in ("last_mut", "last", "first") and not base["args"]):
+        return r
+    return None
+
+
 def conjuncts(c):
     """split a condition on && (let-chains included)"""
     c = peel(c, methods=False)
